@@ -429,7 +429,7 @@ func serve(conn net.Conn, c caseSpec, lg *connLog) {
 			switch h.Key {
 			case 3:
 				res = &metadata.Response{
-					Brokers:      []metadata.ResponseBroker{{NodeID: 1, Host: "broker1", Port: 9092}},
+					Brokers:      []metadata.ResponseBroker{{NodeID: 1, Host: advHost, Port: advPort}},
 					ControllerID: 1,
 					Topics: []metadata.ResponseTopic{{Name: "t", Partitions: []metadata.ResponsePartition{
 						{PartitionIndex: 0, LeaderID: 1, ReplicaNodes: []int32{1}, IsrNodes: []int32{1}}}}},
@@ -814,4 +814,5 @@ func main() {
 		}
 	}
 	credCases(r, thorough)
+	newWriterCases()
 }
